@@ -2252,6 +2252,42 @@ Proof.
     + cbn [fst snd]. split; [eapply LInv_bookkeeping; [..|exact L]; reflexivity | exact NSc].
 Qed.
 
+(* the same two constructors for any policy (with or without a session cache) *)
+Lemma new_factory_LInv H p :
+  Coherent.pol_ok p -> hoare (LInv NoX H) (new_factory p svc prod None) (fun _ w => LInv NoX H w) (fun _ => False).
+Proof.
+  intros [CS CI0] w L. unfold new_factory, bind.
+  set (sc := if p_cache_sessions p then Some (new_cache {| c_kind := p_sess_kind p; c_cap := p_sess_cap p; c_expiry := if p_sess_dur p >? 0 then p_sess_dur p else 0 |}) else None).
+  assert (Fin : forall w1 sk ik, LInv NoX H w1 ->
+            LInv NoX H (with_factories (w_factories w1 ++ [{| fa_policy := p; fa_svc := svc; fa_prod := prod; fa_suffix := None; fa_sk := sk; fa_ik := ik; fa_scache := sc |}]) w1)).
+  { intros w1 sk ik L1. eapply LInv_bookkeeping; [..|exact L1]; reflexivity. }
+  destruct (p_cache_sk p).
+  - rewrite new_keycache_run. cbn [ret]. pose proof (LInv_add_cache H w (p_sk_pol p) CS L) as L1.
+    set (w1 := with_caches (w_caches w ++ [{| kc_backing := new_backing (p_sk_pol p); kc_latest := [] |}]) w) in *.
+    destruct (use_shared_ik p).
+    + rewrite new_keycache_run. cbn [ret]. pose proof (LInv_add_cache H w1 (p_ik_pol p) CI0 L1) as L2.
+      unfold gets, upd, ret. cbn [fst snd]. apply Fin; exact L2.
+    + unfold gets, upd, ret. cbn [fst snd]. apply Fin; exact L1.
+  - cbn [ret]. destruct (use_shared_ik p).
+    + rewrite new_keycache_run. cbn [ret]. pose proof (LInv_add_cache H w (p_ik_pol p) CI0 L) as L2.
+      unfold gets, upd, ret. cbn [fst snd]. apply Fin; exact L2.
+    + unfold gets, upd, ret. cbn [fst snd]. apply Fin; exact L.
+Qed.
+
+Lemma new_session_LInv kinds H f id cached0 :
+  hoare (IL kinds H) (new_session f id cached0) (fun _ w => LInv NoX H w) (LInv NoX H).
+Proof.
+  intros w [HI L]. unfold new_session, get_factory, bind, gets, fail, ret, upd. cbv beta iota.
+  destruct (nth_error (w_factories w) f) as [fa|] eqn:Ef; cbv beta iota; [|exact L].
+  pose proof HI as [_ [_ _ F _]]. pose proof (F f fa Ef) as [_ [_ [_ [_ [_ [_ Pik]]]]]].
+  destruct (use_shared_ik (fa_policy fa)).
+  - cbn [fst snd]. eapply LInv_bookkeeping; [..|exact L]; reflexivity.
+  - destruct (p_cache_ik (fa_policy fa)).
+    + rewrite new_keycache_run. cbn [fst snd]. pose proof (LInv_add_cache H w (p_ik_pol (fa_policy fa)) Pik L) as L1.
+      eapply LInv_bookkeeping; [..|exact L1]; reflexivity.
+    + cbn [fst snd]. eapply LInv_bookkeeping; [..|exact L]; reflexivity.
+Qed.
+
 Definition HIL (w : world) : Prop := exists kinds H, IL kinds H w /\ no_scache w.
 
 Definition benignL (o : hop) : Prop :=
